@@ -13,11 +13,12 @@ ASSUMPTIONS = [
 TRUSTED = ["pandas dtype inference for the response column"]
 
 RESPONSES = ["y", "yc", "cu", "co", "yc[yes]", "yc['yes']", "yc[\"maybe\"]", "cu[m3]", "co[lo]",
+             "co[hi]", "co['mid']", "yc[absent]", "cu[m1]",
              "p(s, n)", "prop(s, n)", "proportion(s, 9)", "p(s, 12)", "I(y * 2)", "{y + 1}", "`y`",
              "center(y)"]
 BAD_RESPONSES = ["y + z", "y:z", "y*z", "(y | g)", "1", "0", "y / z"]
 RHS = ["x", "f", "x + f", "f:x + g", "0 + f", "x + (1 | g)", "(x | g) + f", "C(k) + z",
-       "center(x):f", "1", "0 + x + (0 + f | h)"]
+       "center(x):f", "1", "0 + x + (0 + f | h)", "0", "-1", "0 + (1 | g)"]
 
 
 def run(formula, df):
